@@ -223,6 +223,54 @@ def observe(sp, tr, ec, et, ef, goal_specs, graphs):
     api["unrestricted_after"] = f_after.compute_fitness(suite)
     api["unrestricted_after_covered"] = f_after.compute_is_covered(suite)
     api["unrestricted_expected_covered"] = fm.compute_branch_distance_fitness_is_covered(tr, sp, None, None, None)
+    # chromosome level: what a suite reports must not change when a clone of it is changed and evaluated
+    import pynguin.ga.testsuitechromosome as tsc
+    from pynguin.instrumentation.tracer import ExecutionTrace
+    from pynguin.utils.orderedset import OrderedSet
+
+    full = ExecutionTrace()
+    full.executed_code_objects = OrderedSet(sp.existing_code_objects)
+    full.executed_predicates = dict.fromkeys(sp.existing_predicates, 2)
+    full.true_distances = dict.fromkeys(sp.existing_predicates, 0.0)
+    full.false_distances = dict.fromkeys(sp.existing_predicates, 0.0)
+    full.covered_line_ids = OrderedSet(sp.existing_lines)
+    res_full = SimpleNamespace(execution_trace=full)
+
+    class _StubTCC:
+        changed = False
+        test_case = None
+
+        def __init__(self, result):
+            self._result = result
+
+        def get_last_execution_result(self):
+            return self._result
+
+        def clone(self):
+            return _StubTCC(self._result)
+
+    def values(chrom):
+        return [chrom.get_fitness(), chrom.get_coverage(), chrom.get_is_covered(chrom.get_fitness_functions()[0]),
+                chrom.get_coverage_for(chrom.get_coverage_functions()[0]), chrom.get_coverage_for(chrom.get_coverage_functions()[1])]
+
+    parent = tsc.TestSuiteChromosome()
+    parent.add_fitness_function(comp.BranchDistanceTestSuiteFitnessFunction(executor))
+    parent.add_coverage_function(comp.TestSuiteBranchCoverageFunction(executor))
+    parent.add_coverage_function(comp.TestSuiteLineCoverageFunction(executor))
+    parent.add_test_case_chromosome(_StubTCC(res))
+    try:
+        before = values(parent)
+        child = parent.clone()
+        child.add_test_case_chromosome(_StubTCC(res_full))
+        child_vals = values(child)
+        after = values(parent)
+        grand = child.clone()
+        grand_vals = values(grand)
+        api["chrom"] = dict(before=before, after=after, child=child_vals, grand=grand_vals,
+                            expected=[api["unrestricted_expected"], (out["bcov"] + out["lcov"]) / 2,
+                                      bool(api["unrestricted_expected_covered"]), out["bcov"], out["lcov"]])
+    except Exception as e:  # noqa: BLE001
+        api["chrom"] = dict(error=f"{type(e).__name__}: {e}")
     out["class_api"] = api
     ds = sorted({d for _, d in trace["td"] + trace["fd"]})[:6]
     out["norm"] = [(d, fm.normalise(d)) for d in ds]
@@ -285,6 +333,20 @@ def oracle(c):
                 bad.append((f"class:{k}", f"computations.py {k} gives {a[k]!r} but the metric function gives {v!r}"))
         if (c["cfit"] == 0) != bool(c["ccovd"]) or bool(c["ccovd"]) != (c["ccov"] == 1) or c["cfit"] < 0:
             bad.append(("suite:checked", f"checked fitness {c['cfit']}, covered {c['ccovd']}, coverage {c['ccov']!r}"))
+        ch = a.get("chrom")
+        if ch and "error" in ch:
+            bad.append(("chrom:error", f"chromosome-level evaluation raised {ch['error']}"))
+        elif ch:
+            if ch["before"] != ch["expected"]:
+                bad.append(("chrom:values", f"a suite chromosome reports [fitness, coverage, covered, branch cov, line cov] = "
+                            f"{ch['before']}, the metric functions give {ch['expected']}"))
+            if ch["after"] != ch["before"]:
+                bad.append(("chrom:parent-changed-by-clone", f"an unchanged suite chromosome reported {ch['before']}; after a clone "
+                            f"of it got another test and was evaluated it reports {ch['after']}"))
+            if ch["child"][0] != 0 or not ch["child"][2] or ch["child"][3] != 1:
+                bad.append(("chrom:child", f"clone + a test covering everything reports {ch['child']}"))
+            if ch["grand"] != ch["child"]:
+                bad.append(("chrom:clone-differs", f"a clone reports {ch['grand']}, its original {ch['child']}"))
         if "unrestricted_expected" in a:
             if a["restricted_half_fitness"] != a["restricted_half_expected"]:
                 bad.append(("class:restrict:half", f"restricted instance gives {a['restricted_half_fitness']!r}, the metric function with "
